@@ -23,7 +23,7 @@ from xsim.snapshot import Snapshot, compare, idents
 PID = "C10"
 LEVEL = "fault_enumeration"
 TIERS = {
-    "quick": {"runs": 640, "batch": 1, "timeout_s": 600, "crash_points": "subset", "shrink_budget": 60,
+    "quick": {"runs": 960, "batch": 1, "timeout_s": 600, "crash_points": "subset", "shrink_budget": 60,
               "abort_den": 6},
     "thorough": {"runs": 4000, "batch": 1, "timeout_s": 1800, "crash_points": "all", "shrink_budget": 120,
                  "abort_den": 3},
@@ -67,11 +67,12 @@ def draw_scenario(cs, cfg):
     # family: 0 = function-like object (EM / nn.Module), 1 = user LinearOperator
     sc["family"] = cs.weighted([3, 1], "family")
     if sc["family"] == 0:
-        sc["kind"] = cs.draw(len(AC.ALL_KINDS), "kind")
+        # objects holding one tensor under two names get twice the weight: several mechanisms only differ there
+        sc["kind"] = cs.weighted([2 if k in (AC.EMAlias, AC.NNShared) else 1 for k in AC.ALL_KINDS], "kind")
         sc["fkind"] = ["method", "pf", "sibling", "multisibling", "callable"][cs.weighted([4, 3, 2, 1, 2], "fkind")]
         sc["kind2"] = cs.draw(len(AC.ALL_KINDS), "kind2") if sc["fkind"] == "multisibling" else None
     else:
-        sc["kind"] = cs.draw(len(AC.LO_KINDS), "lokind")
+        sc["kind"] = cs.weighted([2 if k is AC.LOAlias else 1 for k in AC.LO_KINDS], "lokind")
         sc["composite"] = cs.weighted([3, 1, 1, 1], "composite")   # 0 plain, 1 A+B, 2 scalar*A, 3 A.matmul(B)
         sc["n"] = max(sc["n"], 2)
         sc["fkind"] = "linop"
